@@ -89,3 +89,78 @@ REG_POST = {
 contract(F, "ExactOriginCombiner.register_item", props=["C09"], frame=False,
          params={"self": SELF, "checker_and_handler": "sym"}, post=REG_POST, scenarios=_combiner_scenarios("register_item"),
          cover=["returned", f"returned and {IS_EXACT}", f"returned and not {IS_EXACT}"])
+
+
+def _router_scenarios(kind):
+    def gen(mod):
+        import itertools
+        from adaptix._internal.morphing.request_cls import LoaderRequest
+        from adaptix._internal.provider.loc_stack_filtering import LocStack
+        from adaptix._internal.provider.location import TypeHintLoc
+        from adaptix._internal.type_tools import normalize_type
+
+        class Chk:
+            def __init__(self, ans):
+                self.ans = ans
+
+            def check_request(self, mediator, request):
+                return self.ans
+        request = LoaderRequest(loc_stack=LocStack(TypeHintLoc(type=int)))
+        origin = normalize_type(int).origin
+        atoms = [("T", lambda: (Chk(True), "hT")), ("F", lambda: (Chk(False), "hF"))]
+        if kind == "located":
+            atoms += [("Dint", lambda: {int: "hDint", str: "hDstr"}), ("Dstr", lambda: {str: "hDstr2"})]
+        out = []
+        for n in range(0, 4):
+            for combo in itertools.product(atoms, repeat=n):
+                for off in range(0, n + 2):
+                    def factory(combo=combo, off=off):
+                        items = [f() for _, f in combo]
+                        if kind == "located":
+                            r = mod.LocatedRequestRouter(items)
+                            fn = mod.LocatedRequestRouter.route_handler
+                        else:
+                            r = mod.SimpleRouter(items)
+                            fn = mod.SimpleRouter.route_handler
+                        return fn, {"self": r, "mediator": None, "request": request, "search_offset": off}, {"origin": origin}
+                    out.append(("".join(a for a, _ in combo) + f"@{off}", factory))
+        return out
+    return gen
+
+
+# ---- routers: the handler returned is the FIRST match at or after the offset ------------------------------------------
+SR_SELF = ("obj", lambda m: m.SimpleRouter, {"_checkers_and_handlers": "sym"})
+CAH = "self._checkers_and_handlers"
+MATCH = f"mcall('check_request', {CAH}[{{j}}][0], mediator, request)"
+SR_POST = {
+    "first-match": (f"implies(returned, exists(lambda k: search_offset <= k and k < len({CAH}) and {MATCH.format(j='k')} and "
+                    f"forall(lambda j: implies(search_offset <= j and j < k, not {MATCH.format(j='j')})) and "
+                    f"result[0] is {CAH}[k][1] and result[1] == k + 1))"),
+    "none-iff": (f"implies(raised, type(exc) is StopIteration and "
+                 f"forall(lambda j: implies(search_offset <= j and j < len({CAH}), not {MATCH.format(j='j')})))"),
+}
+contract(F, "SimpleRouter.route_handler", props=["C09"],
+         params={"self": SR_SELF, "mediator": "sym", "request": "sym", "search_offset": "int"},
+         requires=["search_offset >= 0"], post=SR_POST, methods={"check_request": "PRED"}, scenarios=_router_scenarios("simple"),
+         loops={0: LoopSpec(inv=[f"forall(lambda j: implies(search_offset <= j and j < search_offset + _i, not {MATCH.format(j='j')}))"])},
+         cover=["returned", "raised"])
+
+LR_SELF = ("obj", lambda m: m.LocatedRequestRouter, {"_items": "sym"})
+IT = "self._items"
+LMATCH = (f"ite(type({IT}[{{j}}]) is tuple, mcall('check_request', {IT}[{{j}}][0], mediator, request), "
+          f"not (mcall('get', {IT}[{{j}}], origin) is None))")
+LHANDLER = f"ite(type({IT}[{{j}}]) is tuple, {IT}[{{j}}][1], mcall('get', {IT}[{{j}}], origin))"
+LR_POST = {
+    "first-match": (f"implies(returned, exists(lambda k: search_offset <= k and k < len({IT}) and {LMATCH.format(j='k')} and "
+                    f"forall(lambda j: implies(search_offset <= j and j < k, not {LMATCH.format(j='j')})) and "
+                    f"result[0] is {LHANDLER.format(j='k')} and result[1] == k + 1))"),
+    "none-iff": (f"implies(raised, type(exc) is StopIteration and "
+                 f"forall(lambda j: implies(search_offset <= j and j < len({IT}), not {LMATCH.format(j='j')})))"),
+}
+contract(F, "LocatedRequestRouter.route_handler", props=["C09"],
+         params={"self": LR_SELF, "mediator": "sym", "request": "sym", "search_offset": "int"},
+         requires=["search_offset >= 0"], post=LR_POST, methods={"check_request": "PRED", "get": "VAL"},
+         scenarios=_router_scenarios("located"),
+         opaque={"normalize_type": (lambda m: m.normalize_type, [ValueError])},
+         loops={0: LoopSpec(inv=[f"forall(lambda j: implies(search_offset <= j and j < search_offset + _i, not {LMATCH.format(j='j')}))"])},
+         cover=["returned", "raised"])
